@@ -84,10 +84,16 @@ void PollPoller::updateChannel(Channel* channel)
     pfd.fd = channel->fd();
     pfd.events = static_cast<short>(channel->events());
     pfd.revents = 0;
+    if (channel->isNoneEvent())
+    {
+      // nothing to watch yet (first update without interest): ignore this
+      // pollfd, as the existing-entry branch does
+      pfd.fd = -channel->fd()-1;
+    }
     pollfds_.push_back(pfd);
     int idx = static_cast<int>(pollfds_.size())-1;
     channel->set_index(idx);
-    channels_[pfd.fd] = channel;
+    channels_[channel->fd()] = channel;
   }
   else
   {
